@@ -178,6 +178,49 @@ def t_rollout_loop(n, include_init, takes_aux, constant_aux, seed, aux_lead_n=Fa
     return True, ""
 
 
+def t_rollout_dtypes(n, include_init, takes_aux, seed):
+    """pytree state whose leaves have different dtypes (int32, int64 beyond 2^53, float32, complex64, complex128 with imaginary parts):
+    every leaf of the trajectory keeps its dtype and equals the naive loop exactly (the spectral steppers roll out complex states)"""
+    import exponax as ex
+    jnp = _jnp()
+    rng = np.random.default_rng(seed)
+    u0 = {"i32": jnp.asarray(rng.integers(-9, 10, size=(3,)), dtype=jnp.int32),
+          "i64": jnp.asarray(rng.integers(-9, 10, size=(2,)) + 2**60 + 1, dtype=jnp.int64),
+          "f32": jnp.asarray(rng.standard_normal((2, 2)), dtype=jnp.float32),
+          "c64": jnp.asarray(rng.standard_normal(3) + 1j * rng.standard_normal(3), dtype=jnp.complex64),
+          "c128": (jnp.asarray(rng.standard_normal((1, 4)) + 1j * rng.standard_normal((1, 4)), dtype=jnp.complex128),)}
+    step = lambda u: {"i32": u["i32"] * 2 - 1, "i64": u["i64"] + 3, "f32": u["f32"] * jnp.float32(0.5), "c64": u["c64"] * jnp.complex64(1j),
+                      "c128": (u["c128"][0] * (0.5 - 0.25j),)}
+    if takes_aux:
+        aux = jnp.asarray(rng.integers(1, 5, size=(n,)), dtype=jnp.int32)
+        f = lambda u, x: dict(step(u), i32=step(u)["i32"] + x)
+        got = ex.rollout(f, n, include_init=include_init, takes_aux=True, constant_aux=False)(u0, aux)
+        last = ex.repeat(f, n, takes_aux=True, constant_aux=False)(u0, aux)
+    else:
+        f = step
+        got = ex.rollout(f, n, include_init=include_init)(u0)
+        last = ex.repeat(f, n)(u0)
+    import jax
+    states, u = ([u0] if include_init else []), u0
+    for i in range(n):
+        u = f(u, aux[i]) if takes_aux else f(u)
+        states.append(u)
+    if jax.tree_util.tree_structure(got) != jax.tree_util.tree_structure(u0):
+        return False, "the trajectory pytree has a different structure from the state"
+    for (path, g), l0, lN, lL in zip(jax.tree_util.tree_flatten_with_path(got)[0], jax.tree_util.tree_leaves(u0), jax.tree_util.tree_leaves(u),
+                                     jax.tree_util.tree_leaves(last)):
+        key = jax.tree_util.keystr(path)
+        exp = np.stack([np.asarray(jax.tree_util.tree_leaves(st)[[jax.tree_util.keystr(p) for p, _ in jax.tree_util.tree_flatten_with_path(st)[0]].index(key)])
+                        for st in states]) if states else np.zeros((0,) + l0.shape, dtype=l0.dtype)
+        if np.asarray(g).dtype != l0.dtype:
+            return False, f"leaf {key}: trajectory dtype {np.asarray(g).dtype}, state dtype {l0.dtype}"
+        if np.asarray(g).shape != exp.shape or not np.array_equal(np.asarray(g), exp):
+            return False, f"leaf {key}: trajectory differs from the naive loop"
+        if np.asarray(lL).dtype != l0.dtype or not np.array_equal(np.asarray(lL), np.asarray(lN)):
+            return False, f"leaf {key}: repeat differs from the n-fold application"
+    return True, ""
+
+
 def t_windows(T, m, seed):
     import exponax as ex
     jnp = _jnp()
@@ -253,7 +296,7 @@ def t_forced(name, D, N, order, seed):
     return (a and b), ("" if a and b else f"forced stepper: zero-forcing ok={a}, u+dt*f ok={b}")
 
 
-TESTS = dict(rollout_loop=t_rollout_loop, windows=t_windows, repeated=t_repeated, forced=t_forced)
+TESTS = dict(rollout_dtypes=t_rollout_dtypes, rollout_loop=t_rollout_loop, windows=t_windows, repeated=t_repeated, forced=t_forced)
 
 
 def witness(ctx):
@@ -265,6 +308,9 @@ def witness(ctx):
             ctx.check("rollout_loop", dict(n=n, include_init=inc, takes_aux=ta, constant_aux=ca, seed=ctx.seed + n), nontrivial=n >= 1)
             if ta and ca and n >= 1:
                 ctx.check("rollout_loop", dict(n=n, include_init=inc, takes_aux=ta, constant_aux=ca, seed=ctx.seed + n, aux_lead_n=True))
+    for n in ((0, 2) if ctx.quick and not ctx.deep else (0, 1, 2, 5)):
+        for inc, ta in itertools.product((False, True), (False, True)):
+            ctx.check("rollout_dtypes", dict(n=n, include_init=inc, takes_aux=ta, seed=ctx.seed + n), nontrivial=n >= 1)
     for T in range(1, (4 if ctx.quick and not ctx.deep else 8) + 1):
         for m in range(1, T + 2):
             ctx.check("windows", dict(T=T, m=m, seed=ctx.seed + T))
